@@ -34,8 +34,11 @@ from harness.common import exc_name, jdump
 
 PID = "C18"
 TITLE = "Cache replays exactly the stored flow and never serves a truncated one"
-LEAN_MODULES = ["LenaModel.Props.C18"]
-LEAN_SOURCES = ["LenaModel/Model/C18.lean", "LenaModel/Lemmas/C18.lean", "LenaModel/Props/C18.lean"]
+LEAN_MODULES = ["LenaModel.Props.C18", "LenaModel.Props.C18Split", "LenaModel.Props.C18Ctx", "LenaModel.Props.C18Spec"]
+LEAN_SOURCES = ["LenaModel/Model/C18.lean", "LenaModel/Model/C18Split.lean", "LenaModel/Model/C18Ctx.lean",
+                "LenaModel/Model/C18Spec.lean", "LenaModel/Lemmas/C18.lean", "LenaModel/Lemmas/C18Split.lean",
+                "LenaModel/Props/C18.lean", "LenaModel/Props/C18Split.lean", "LenaModel/Props/C18Ctx.lean",
+                "LenaModel/Props/C18Spec.lean"]
 DRIVER = "drivers/C18.lean"
 THEOREMS = [
     "Lena.C18.hoisted_same_chain",
@@ -55,8 +58,28 @@ THEOREMS = [
     "Lena.C18.step_final_cases",
     "Lena.C18.cache_complete",
     "Lena.C18.later_run_serves_complete_flow",
+    "Lena.C18.interrupted_recompute_keeps_old_cache",
     "Lena.C18.nextUppers_spec",
     "Lena.C18.drive_spec",
+    # a Cache in a member of Split (Props/C18Split.lean)
+    "Lena.C18.run_touches_only_own_caches",
+    "Lena.C18.effBufsize_patched",
+    "Lena.C18.splitLoop_whole",
+    "Lena.C18.split_whole_eq_two_runs",
+    "Lena.C18.split_whole_stores",
+    "Lena.C18.split_pinned_truncates",
+    "Lena.C18.split_bare_replay",
+    # file names from the static context (Props/C18Ctx.lean)
+    "Lena.C18.resolve_tcache_name",
+    "Lena.C18.nameId_inj",
+    "Lena.C18.nameId_ge",
+    "Lena.C18.run_leaves_other_names",
+    # the executable vocabulary decides the propositions of the statements (Props/C18Spec.lean)
+    "Lena.C18.distinctB_iff",
+    "Lena.C18.noFilledB_iff",
+    "Lena.C18.modeOkB_iff",
+    "Lena.C18.evAfterB_iff",
+    "Lena.C18.storedByList_iff",
 ]
 CASE_TIMEOUT = 10
 TRUSTED = [
@@ -168,6 +191,10 @@ class _Src(object):
     def __init__(self, spec, vk, log):
         self.vals, self.raise_at, self.vk, self.log = spec["vals"], spec["raise"], vk, log
 
+    def renew(self, spec, log):
+        """the same object in a later run: new values, new log"""
+        self.vals, self.raise_at, self.log = spec["vals"], spec["raise"], log
+
     def __call__(self):
         i = 0
         for i, c in enumerate(self.vals):
@@ -187,6 +214,9 @@ class _Map(object):
 
     def __init__(self, j, spec, vk, log):
         self.j, self.a, self.raise_at, self.vk, self.log = j, spec["a"], spec["raise"], vk, log
+
+    def renew(self, spec, log):
+        self.raise_at, self.log = spec["raise"], log
 
     def run(self, flow):
         n = 0
@@ -250,7 +280,7 @@ def _bits(names):
     return b
 
 
-def _mk_els(specs, j0, names, vk, log, caches=None, tmpl=None):
+def _mk_els(specs, j0, names, vk, log, caches=None, tmpl=None, maps=None):
     """the real elements of a list of specs; map elements are numbered over the elements that carry data"""
     import lena.flow
     import lena.meta
@@ -258,6 +288,8 @@ def _mk_els(specs, j0, names, vk, log, caches=None, tmpl=None):
     for e in specs:
         if e["k"] == "map":
             els.append(_Map(j, e, vk, log))
+            if maps is not None:
+                maps.append(els[-1])
         elif e["k"] == "setctx":
             els.append(lena.meta.SetContext("k%d" % e["key"], e["v"]))
             continue
@@ -272,51 +304,93 @@ def _mk_els(specs, j0, names, vk, log, caches=None, tmpl=None):
     return els
 
 
-def _build(op, names, vk, log, caches=None, tmpl=None):
-    """build the pipeline of a run with the real lena classes; returns the generator to consume"""
+def _shape_key(op):
+    """what makes two run operations runs of the same pipeline object (everything but the source values and the
+    crash points)"""
+    def strip(els):
+        return [{k: v for k, v in e.items() if k != "raise"} for e in els]
+    if op["op"] == "splitrun":
+        return jdump(["split", strip(op["outer"]), strip(op["branch"]), op["bufsize"], bool(op.get("bare")), op.get("nest")])
+    return jdump(["run", strip(op["els"]), op.get("mode", "source"), op.get("nest")])
+
+
+def _construct(op, names, vk, log, tmpl):
+    """build the pipeline of a run with the real lena classes; returns (start, caches, src, maps) where start()
+    puts the pipeline to work (calls alter_sequence where the mode says so) and returns the generator to consume"""
     import lena.core
     import lena.flow
     src = _Src(op["src"], vk, log)
+    caches, maps = [], []
     if op["op"] == "splitrun":
-        outer = _mk_els(op["outer"], 0, names, vk, log)
-        branch = _mk_els(op["branch"], len(outer), names, vk, log)
+        outer = _mk_els(op["outer"], 0, names, vk, log, caches, tmpl, maps)
+        n_data = sum(1 for e in op["outer"] if e["k"] != "setctx")
+        branch = _mk_els(op["branch"], n_data, names, vk, log, caches, tmpl, maps)
+        if op.get("nest") and not op.get("bare"):
+            i, j = op["nest"]
+            branch = branch[:i] + [lena.core.Sequence(*branch[i:j])] + branch[j:]
         member = branch[0] if op.get("bare") else lena.core.Sequence(*branch)
         sp = lena.core.Split([member], bufsize=op["bufsize"])
-        return lena.core.Source(src, *(outer + [sp]))()
-    els = _mk_els(op["els"], 0, names, vk, log, caches, tmpl)
+        source = lena.core.Source(src, *(outer + [sp]))
+        return (lambda: source()), caches, src, maps
+    els = _mk_els(op["els"], 0, names, vk, log, caches, tmpl, maps)
     mode = op.get("mode", "source")
     if mode in ("bare_hoist", "bare_meta"):
         el = els[0]
-        alt = lena.flow.Cache.alter_sequence(el) if mode == "bare_hoist" else lena.core.alter_sequence(el)
-        if isinstance(alt, lena.core.Source):
-            return alt()
-        return alt.run(src())
+        def start_bare():
+            alt = lena.flow.Cache.alter_sequence(el) if mode == "bare_hoist" else lena.core.alter_sequence(el)
+            if isinstance(alt, lena.core.Source):
+                return alt()
+            return alt.run(src())
+        return start_bare, caches, src, maps
     nest = op.get("nest")
     if nest:
         i, j = nest
         els = els[:i] + [lena.core.Sequence(*els[i:j])] + els[j:]
     if mode == "source":
-        return lena.core.Source(src, *els)()
+        source = lena.core.Source(src, *els)
+        return (lambda: source()), caches, src, maps
     if mode == "hoist_src":
-        alt = lena.flow.Cache.alter_sequence(lena.core.Source(src, *els))
-        return alt()
+        source = lena.core.Source(src, *els)
+        return (lambda: lena.flow.Cache.alter_sequence(source)()), caches, src, maps
     seq = lena.core.Sequence(*els)
-    if mode == "hoist":
-        seq = lena.flow.Cache.alter_sequence(seq)
-    elif mode == "meta":
-        seq = lena.core.alter_sequence(seq)
-    if isinstance(seq, lena.core.Source):
-        return seq()
-    return seq.run(src())
+    def start_seq():
+        alt = seq
+        if mode == "hoist":
+            alt = lena.flow.Cache.alter_sequence(seq)
+        elif mode == "meta":
+            alt = lena.core.alter_sequence(seq)
+        if isinstance(alt, lena.core.Source):
+            return alt()
+        return alt.run(src())
+    return start_seq, caches, src, maps
 
 
-def _run_op(op, names, vk, leaked, tmpl=None):
+def _build(op, names, vk, log, caches=None, tmpl=None, built=None):
+    """the generator of a run; with op["reuse"] the pipeline object of an earlier run of the same shape is used
+    again (same Cache, Sequence, Source, Split objects), otherwise new objects are made"""
+    key = _shape_key(op)
+    if op.get("reuse") and built is not None and key in built:
+        start, cs, src, maps = built[key]
+        src.renew(op["src"], log)
+        specs = [e for e in (op["outer"] + op["branch"] if op["op"] == "splitrun" else op["els"]) if e["k"] == "map"]
+        for m, e in zip(maps, specs):
+            m.renew(e, log)
+    else:
+        start, cs, src, maps = _construct(op, names, vk, log, tmpl)
+        if built is not None:
+            built[key] = (start, cs, src, maps)
+    if caches is not None:
+        caches.extend(cs)
+    return start()
+
+
+def _run_op(op, names, vk, leaked, tmpl=None, built=None):
     log = []
     ob = {"out": [], "snaps": []}
     caches = []
     try:
-        it = _build(op, names, vk, log, caches, tmpl)
-        if op["op"] == "run":
+        it = _build(op, names, vk, log, caches, tmpl, built)
+        if op["op"] in ("run", "splitrun"):
             # the file every Cache element of the pipeline uses (a private attribute read by the harness)
             ob["ids"] = [names.index(c._filename) if c._filename in names else "?" + os.path.basename(c._filename)
                          for c in caches]
@@ -371,10 +445,23 @@ def run_impl(case):
     tmpl = {"nb": case.get("nb", nc), "V": case.get("V", 0)}
     leaked = []
     obs = []
+    built = {}          # pipeline objects of earlier runs, for runs with "reuse"
     try:
         for op in case["hist"]:
             if op["op"] in ("run", "splitrun"):
-                ob = _run_op(op, names, vk, leaked, tmpl)
+                ob = _run_op(op, names, vk, leaked, tmpl, built)
+            elif op["op"] == "dropdir":
+                # something readable that os.remove cannot remove is at the name of the cache: a directory
+                import lena.flow
+                name = os.path.join(d, "blocked%d.pkl" % op["c"])
+                os.mkdir(name)
+                ob = {}
+                try:
+                    lena.flow.Cache(name, recompute=bool(op.get("rc"))).drop_cache()
+                    ob["r"] = "ok"
+                except Exception as e:      # LenaEnvironmentError is an OSError, too
+                    ob["r"] = exc_name(e) if exc_name(e).startswith("Lena") else ("OSError" if isinstance(e, OSError) else exc_name(e))
+                os.rmdir(name)
             elif op["op"] == "repr":
                 import lena.flow
                 ob = {"exists": "[cache exists]" in repr(lena.flow.Cache(names[op["c"]], recompute=bool(op.get("rc"))))}
@@ -397,6 +484,7 @@ def run_impl(case):
             obs.append(ob)
     finally:
         del leaked[:]
+        built.clear()
         gc.collect()
         shutil.rmtree(d, ignore_errors=True)
     return {"ops": obs}
@@ -452,11 +540,11 @@ def split_patched():
     return _SPLIT_RULE[0]
 
 
-def _resolved(op, ids):
+def _resolved(op, ids, part="els", skip=0):
     """the pipeline of a run with every templated cache replaced by the cache id it was observed (or predicted) to use,
-    and without the SetContext elements"""
-    out, i = [], 0
-    for e in op["els"]:
+    and without the SetContext elements (`skip` caches precede this part)"""
+    out, i = [], skip
+    for e in op[part]:
         if e["k"] == "setctx":
             continue
         if e["k"] == "tcache":
@@ -482,14 +570,34 @@ def compare(case, res, replies):
     for i, (op, a, b) in enumerate(zip(case["hist"], res["ops"], m["ops"])):
         b = dict(b)
         ref = b.pop("ref", None)
+        spec = b.pop("spec", None)
         if jdump(a) != jdump(b):
             keys = [k for k in sorted(set(a) | set(b)) if jdump(a.get(k)) != jdump(b.get(k))]
             return (f"op {i} ({op['op']}): impl and model differ in {keys}: impl "
                     + jdump({k: a.get(k) for k in keys})[:300] + " model " + jdump({k: b.get(k) for k in keys})[:300])
         if op["op"] == "run":
-            flow = _pipe_flow(finals, op["src"], _resolved(op, b["ids"]))[0]
+            els = _resolved(op, b["ids"])
+            flow, inputs, replay = _pipe_flow(finals, op["src"], els)
             if ref != {"vals": flow[0], "exc": flow[1]}:
                 return f"op {i}: Lean pipeFlow {ref} differs from the Python reference {flow}"
+            # the specification vocabulary of the theorems, evaluated by the driver, against Python
+            k = op["take"]
+            end = "stopped" if (k is not None and k <= len(flow[0])) else ("exhausted" if flow[1] is None else flow[1])
+            erased = _pipe_flow([None] * len(finals), op["src"], [e for e in els if e["k"] == "map"])[0]
+            py = {"distinct": len(set(b["ids"])) == len(b["ids"]),
+                  "nofilled": replay is None,
+                  "modeok": op.get("mode", "source") not in ("bare_hoist", "bare_meta") or (len(els) == 1 and els[0]["k"] == "cache"),
+                  "erased": {"vals": erased[0], "exc": erased[1]},
+                  "endof": end,
+                  "stored": sorted([c, fl[0]] for c, fl in inputs.items()) if end == "exhausted" else [],
+                  "replay": replay,
+                  "evafter": None if replay is None else all(ev[0] in ("m", "m!") and ev[1] > replay for ev in b["ev"])}
+            spec = dict(spec or {})
+            spec["stored"] = sorted(spec.get("stored", []))
+            if jdump(spec) != jdump(py):
+                keys = [x for x in py if jdump(py[x]) != jdump(spec.get(x))]
+                return (f"op {i}: specification vocabulary: Lean and Python differ in {keys}: Lean "
+                        + jdump({x: spec.get(x) for x in keys})[:300] + " Python " + jdump({x: py[x] for x in keys})[:300])
         finals = [f["final"] for f in b["fs"]]
     return None
 
@@ -540,15 +648,19 @@ def oracle(case, res):
             # makes of them: the outer pipeline is pulled whatever the branch does (and may be pulled to its end, and
             # its caches filled, before the consumer stops); an exception of the outer pipeline may arrive before all
             # earlier values were yielded.  The branch is a pipeline on the values of the outer flow.
-            m = len(op["outer"])
-            (o_vals, o_exc), o_inputs, o_replay = _pipe_flow(stored, op["src"], op["outer"])
-            (vals, exc), b_inputs, b_replay = _pipe_flow(stored, {"vals": o_vals, "raise": None}, op["branch"])
+            if any(type(c) is not int for c in ob.get("ids", [])):
+                return f"cache-name: {where}: a Cache uses a file outside the names of the case: {ob.get('ids')}"
+            outer = _resolved(op, ob.get("ids", []), "outer")
+            branch = _resolved(op, ob.get("ids", []), "branch", sum(1 for e in outer if e["k"] == "cache"))
+            m = len(outer)
+            (o_vals, o_exc), o_inputs, o_replay = _pipe_flow(stored, op["src"], outer)
+            (vals, exc), b_inputs, b_replay = _pipe_flow(stored, {"vals": o_vals, "raise": None}, branch)
             for ev in ob["ev"]:
                 if o_replay is not None and (ev[0] in ("s", "s!", "s$") or (ev[1] < o_replay)):
-                    return (f"upstream-pulled: {where}: cache {op['outer'][o_replay]['c']} is filled, but the run pulled "
+                    return (f"upstream-pulled: {where}: cache {outer[o_replay]['c']} is filled, but the run pulled "
                             f"from upstream of it (event {ev})")
                 if b_replay is not None and ev[0] in ("m", "m!") and m <= ev[1] < m + b_replay:
-                    return (f"upstream-ran: {where}: cache {op['branch'][b_replay]['c']} (branch element {b_replay}) is "
+                    return (f"upstream-ran: {where}: cache {branch[b_replay]['c']} (branch element {b_replay}) is "
                             f"filled, but branch element {ev[1] - m} upstream of it processed a value")
             if ob["out"] != vals[:len(ob["out"])]:
                 return (f"flow-altered: {where}: the flow through the pipeline is {vals}, the run yielded {ob['out']} "
@@ -573,6 +685,10 @@ def oracle(case, res):
                     for c, fl in o_inputs.items():
                         if ob["fs"][c]["final"] == list(fl[0]):
                             stored[c] = list(fl[0])
+        elif op["op"] == "dropdir":
+            # "If cache exists and is readable, but could not be deleted, LenaEnvironmentError is raised" (docstring)
+            if ob["r"] == "ok":
+                return f"drop-silent: {where}: drop_cache() returned although the cache could not be removed"
         elif op["op"] == "repr":
             # the representation says whether the cache will be replayed
             if ob["exists"] != (stored[op["c"]] is not None and not op.get("rc")):
@@ -614,6 +730,7 @@ def _show_op(op):
         member = _show_els(op["branch"]) if op.get("bare") else f"Sequence({_show_els(op['branch'])})"
         return (f"splitrun[src={op['src']['vals']}" + ("" if op["src"]["raise"] is None else f"!{op['src']['raise']}")
                 + f" outer={_show_els(op['outer'])} Split([{member}], bufsize={op['bufsize']})"
+                + (f" nest={op['nest']}" if op.get("nest") else "")
                 + f" take={op['take']} {op.get('fin', 'close')}]")
     if op["op"] != "run":
         return jdump(op)
@@ -647,7 +764,45 @@ def classify(case, res):
     return sorted(set(labels))
 
 
+def _static_ids(case, els, ctx=None):
+    """the cache ids of a list of element specs under the static context set by the SetContext elements before
+    them (a Python transcription of the naming rule, used to keep shrunk cases well-formed)"""
+    nb, V = case.get("nb", case["nc"]), case.get("V", 0)
+    ctx = dict(ctx or {})
+    ids = []
+    for e in els:
+        if e["k"] == "setctx":
+            ctx[e["key"]] = e["v"]
+        elif e["k"] == "cache":
+            ids.append(e["c"])
+        elif e["k"] == "tcache":
+            v = ctx.get(e["key"])
+            ids.append(nb + e["t"] * (V + 1) + (0 if v is None else v + 1))
+    return ids, ctx
+
+
+def _well_formed(case):
+    """every pipeline of the case uses distinct cache files"""
+    for op in case["hist"]:
+        if op["op"] == "run":
+            ids = _static_ids(case, op["els"])[0]
+        elif op["op"] == "splitrun":
+            o_ids, ctx = _static_ids(case, op["outer"])
+            ids = o_ids + _static_ids(case, op["branch"], ctx)[0]
+        else:
+            continue
+        if len(set(ids)) != len(ids) or any(c >= case["nc"] for c in ids):
+            return False
+    return True
+
+
 def shrink(case):
+    for cand in _shrink(case):
+        if _well_formed(cand):
+            yield cand
+
+
+def _shrink(case):
     hist = case["hist"]
     for i in range(len(hist)):
         yield dict(case, hist=hist[:i] + hist[i + 1:])
@@ -669,6 +824,8 @@ def shrink(case):
                 yield rep2(bufsize=op["bufsize"] - 1)
             if op["take"] is not None:
                 yield rep2(take=None)
+            if op.get("nest"):
+                yield rep2(nest=None)
         if op["op"] != "run":
             continue
         def rep(**kw):
@@ -855,6 +1012,11 @@ def _family_s(ns):
                 for r1 in _split_variants(outer, branch, n, bufsize):
                     yield {"nc": nc, "fam": "S", "hist": [r1, R(_vals(1, 2), outer + branch, mode="sequence"),
                                                           SR(_vals(2, 3), outer, branch, bufsize)]}
+                # the Cache nested in sub-Sequences of the member
+                for i in range(len(branch)):
+                    for j in range(i + 1, len(branch) + 1):
+                        yield {"nc": nc, "fam": "S", "hist": [dict(SR(_vals(0, n), outer, branch, bufsize), nest=[i, j]),
+                                                              dict(SR(_vals(2, 3), outer, branch, bufsize), nest=[i, j])]}
     # a bare Cache as a member of Split: hoisted into a Source when it is filled (lena.core.alter_sequence)
     for outer in ([], [M(1)], [C(1)]):
         for rcf in (False, True):
@@ -865,6 +1027,26 @@ def _family_s(ns):
                         for r1 in _split_variants(outer, [C(0, rcf)], n, bufsize, bare=True):
                             yield {"nc": 2, "fam": "S", "hist": pre + [r1, SR(_vals(2, 3), outer, [C(0)], bufsize, bare=True),
                                                                        R(_vals(1, 1), [C(0)])]}
+
+
+def _family_e(ns):
+    """one pipeline object run three times (state kept in the objects between runs must not matter): every crash
+    point of the first run, then a complete run and a replay with the same Source / Sequence / Cache / Split objects"""
+    for shape in _SHAPES1 + _SHAPES2[:2]:
+        nc = 1 + max(e["c"] for e in shape if e["k"] == "cache")
+        for n in ns:
+            for r1 in _crash_variants(shape, n):
+                for mode in ("source", "sequence", "hoist", "hoist_src"):
+                    hist = [dict(r1, mode=mode), dict(R(_vals(1, 2), shape, mode=mode), reuse=True),
+                            dict(R(_vals(2, 3), shape, mode=mode), reuse=True), DROP(0),
+                            dict(R(_vals(3, 1), shape, mode=mode), reuse=True)]
+                    yield {"nc": nc, "fam": "E", "hist": hist}
+    for outer, branch in _SPLIT_SHAPES[:4]:
+        nc = 1 + max([e["c"] for e in outer + branch if e["k"] == "cache"] + [0])
+        for n in ns:
+            for r1 in _split_variants(outer, branch, n, 2):
+                yield {"nc": nc, "fam": "E", "hist": [r1, dict(SR(_vals(1, 3), outer, branch, 2), reuse=True),
+                                                      dict(SR(_vals(2, 2), outer, branch, 2), reuse=True)]}
 
 
 def _random_case(rng):
@@ -914,6 +1096,19 @@ def _random_case(rng):
                                sraise=sraise))
                 continue
             hist.append(R(vals, els, take=take, fin=rng.choice(["close", "leak"]), mode=mode, sraise=sraise, nest=nest))
+    # the same pipeline object run again: a later run copies the pipeline of an earlier one and is marked "reuse"
+    for i in range(1, len(hist)):
+        prev = [h for h in hist[:i] if h["op"] == hist[i]["op"] and h["op"] in ("run", "splitrun")]
+        if prev and rng.random() < 0.35:
+            p = rng.choice(prev)
+            for f in ("els", "mode", "nest", "outer", "branch", "bufsize", "bare"):
+                if f in p:
+                    hist[i][f] = [dict(e) for e in p[f]] if isinstance(p[f], list) and f != "nest" else p[f]
+            for part in ("els", "outer", "branch"):
+                for e in hist[i].get(part, []):
+                    if e["k"] == "map":
+                        e["raise"] = None
+            hist[i]["reuse"] = True
     return {"nc": nc, "fam": "R", "hist": hist}
 
 
@@ -924,7 +1119,8 @@ def _enumerated(quick):
         _family_c(3 if quick else 4),
         _family_d(),
         _family_s(range(0, 4) if quick else range(0, 6)),
-        _family_x())
+        _family_x(),
+        _family_e(range(0, 3) if quick else range(0, 5)))
 
 
 def gen_cases(ctx):
@@ -990,9 +1186,21 @@ def _family_x():
                     hist = [first, R(_vals(1, 2), p2, mode=mode), FINALIZE, R(_vals(2, 2), p1, mode=mode),
                             REPR(1), REPR(2), REPR(2, True), REPR(0)]
                     yield dict(base, hist=hist)
+    # the static context of the outer elements reaches a templated Cache in a member of Split
+    for v in (None, 0, 1):
+        for w in (None, 1):
+            sv = [SET(0, v)] if v is not None else []
+            sw = [SET(0, w)] if w is not None else []
+            for bufsize in (None, 2):
+                for take in (None, 1):
+                    hist = [SR(_vals(0, 3), sv + [M(1)], sw + [TC(0, 0), M(2)], bufsize, take=take),
+                            SR(_vals(1, 3), sv + [M(1)], sw + [TC(0, 0), M(2)], bufsize),
+                            R(_vals(2, 2), sv + sw + [TC(0, 0)]), REPR(1), REPR(2), REPR(3)]
+                    yield dict(base, hist=hist)
     # repr and drop on plain caches after every kind of first run
     for r1 in _crash_variants([M(1), C(0)], 2):
-        yield {"nc": 1, "fam": "X", "hist": [REPR(0), r1, REPR(0), REPR(0, True), DROP(0), REPR(0), DROP(0, True)]}
+        yield {"nc": 1, "fam": "X", "hist": [REPR(0), r1, REPR(0), REPR(0, True), DROP(0), REPR(0), DROP(0, True),
+                                             {"op": "dropdir", "c": 0, "rc": False}, {"op": "dropdir", "c": 0, "rc": True}]}
 
 
 # ---- MANIFEST texts ------------------------------------------------------------------------
